@@ -99,7 +99,7 @@ pub enum K {
 const KEYS: [K; 4] = [K::K0, K::K1, K::K2, K::K3];
 
 /// frame deltas in nanoseconds: 0, 1/512 s, 1/8 s, 1/2 s, 3 s, 100 s (exact), and some arbitrary ones
-const DELTAS_NS: [u64; 14] = [0, 1_953_125, 125_000_000, 500_000_000, 3_000_000_000, 100_000_000_000, 62_500_000, 16_666_667, 1, 33_000_000, 250_000_000, 25_000_000, 50_000_000, 100_000_000];
+const DELTAS_NS: [u64; 16] = [0, 1_953_125, 125_000_000, 500_000_000, 3_000_000_000, 100_000_000_000, 62_500_000, 16_666_667, 1, 33_000_000, 250_000_000, 25_000_000, 50_000_000, 100_000_000, 20_000_000_000_000, 3_000_000_000_000_000];
 
 fn rank(s: AnimationState) -> u8 {
     match s {
@@ -399,7 +399,7 @@ fn bevy_timing_strategy() -> impl Strategy<Value = Timing> {
 }
 
 fn frame_sel() -> impl Strategy<Value = u8> {
-    prop_oneof![7 => 0u8..7, 3 => 7u8..14]
+    prop_oneof![7 => 0u8..7, 3 => 7u8..16]
 }
 
 fn c18_strategy() -> impl Strategy<Value = C18Case> {
@@ -632,6 +632,10 @@ pub struct C19Case {
     /// delay of B's timeline in 1/8 s units (its Waiting -> Playing change then falls on some later frame)
     #[serde(default)]
     pub b_delay: u8,
+    /// the governed animator is created with `Animator::with_timeline(tls[i])` (a construction-time
+    /// timeline the selector replaces on its first frame) instead of `Animator::new()`
+    #[serde(default)]
+    pub ctor_timeline: Option<u8>,
     pub start: Vals,
     pub ops: Vec<SOp>,
 }
@@ -640,7 +644,7 @@ fn c19_strategy() -> impl Strategy<Value = C19Case> {
     let finite_timing = (prop::sample::select(vec![0.25f32, 0.5, 1.0, 1.5, 3.0, 0.5625, 0.28125]), prop_oneof![3 => Just(0.0f32), 1 => prop::sample::select(vec![0.125f32, 0.5])], prop_oneof![4 => Just(Rep::None), 1 => Just(Rep::Times(1)), 1 => Just(Rep::Infinite)], any::<bool>())
         .prop_map(|(cycle, delay, repeat, reverse)| Timing { cycle, delay, repeat, reverse });
     let op = prop_oneof![
-        10 => prop_oneof![6 => 0u8..5, 2 => 5u8..14].prop_map(SOp::Frame),
+        10 => prop_oneof![6 => 0u8..5, 2 => 5u8..16].prop_map(SOp::Frame),
         3 => (0u8..4).prop_map(SOp::SetKey),
         1 => any::<bool>().prop_map(SOp::Enable),
     ];
@@ -653,11 +657,12 @@ fn c19_strategy() -> impl Strategy<Value = C19Case> {
         desc::vals_strategy(),
         prop::collection::vec(op, 1..=40),
         prop_oneof![2 => Just(0u8), 3 => 0u8..12],
+        prop::option::weighted(0.3, 0u8..3),
     )
-        .prop_map(|(tls, initial_key, chain, with_b, start, ops, b_delay)| C19Case { tls, initial_key, chain, with_b, b_delay, start, ops })
+        .prop_map(|(tls, initial_key, chain, with_b, start, ops, b_delay, ctor_timeline)| C19Case { tls, initial_key, chain, with_b, b_delay, ctor_timeline, start, ops })
 }
 
-const C19_LABELS: [&str; 13] = ["key_change_mid_flight", "chain_fired", "end_without_chain_entry", "other_animator_ended", "key_set_in_gap_after_end", "same_key_reassigned", "key_without_timeline", "has_chain", "two_component_types", "chain_first_order_consistent", "select_first_order_consistent", "ended_reached", "animator_disabled"];
+const C19_LABELS: [&str; 14] = ["key_change_mid_flight", "chain_fired", "end_without_chain_entry", "other_animator_ended", "key_set_in_gap_after_end", "same_key_reassigned", "key_without_timeline", "has_chain", "two_component_types", "chain_first_order_consistent", "select_first_order_consistent", "ended_reached", "animator_disabled", "animator_constructed_with_a_timeline"];
 
 /// One hypothesis about the (unspecified but fixed) relative order of chain_animations / select_animation.
 struct Hyp {
@@ -685,7 +690,12 @@ fn c19_judge(c: &C19Case, obs: &mut Obs) -> Result<(), String> {
     // in iteration order): it must not influence the entity under test
     let idle = if c.b_delay % 2 == 1 { Some(app.world.spawn((A::from_vals(&c.start), Animator::<A>::new())).id()) } else { None };
     let mut chain_map = std::collections::HashMap::new();
-    let mut ec = app.world.spawn((start.clone(), Animator::<A>::new(), sb.build()));
+    let governed = match c.ctor_timeline {
+        Some(i) => Animator::<A>::with_timeline(build_a(&c.tls[i as usize % c.tls.len().max(1)])),
+        None => Animator::<A>::new(),
+    };
+    obs.label_if(13, c.ctor_timeline.is_some());
+    let mut ec = app.world.spawn((start.clone(), governed, sb.build()));
     if let Some(ch) = &c.chain {
         let mut cb = AnimationChainBuilder::<K>::new();
         for (f, t) in ch {
